@@ -161,12 +161,12 @@ def check_day(it, y, m, d, n, s, offs, mode="full"):
         direct("to_oa_date", [y, m, d], n, lambda v: v == n)
         ot = direct("to_oa_date", [y, m, d, h, mi, se], "%d+%d/86400" % (n, s),
                     lambda v: abs(Fraction(v) - (n + Fraction(s, 86400))) <= TOL)
-        # day number -> date
+        # day number -> date; the number the code itself produced must come back as the same date
         direct("to_date", n, ymd + (0,), lambda v: fields(v) == ymd + (0,))
-        direct("to_date", n + s / 86400, ymd + (s,), lambda v: fields(v) == ymd + (s,))
-        if ot[0] == "val" and isinstance(ot[1], (int, float)) and ot[1] != n + s / 86400:
-            # the exact number the code itself produced must come back as the same date
-            direct("to_date", ot[1], ymd + (s,), lambda v: fields(v) == ymd + (s,))
+        back = ot[1] if ot[0] == "val" and isinstance(ot[1], (int, float)) else n + s / 86400
+        direct("to_date", back, ymd + (s,), lambda v: fields(v) == ymd + (s,))
+        if mode == "full" and back != n + s / 86400:
+            direct("to_date", n + s / 86400, ymd + (s,), lambda v: fields(v) == ymd + (s,))
     if mode == "direct":
         return out, cnt
 
@@ -193,12 +193,14 @@ def check_day(it, y, m, d, n, s, offs, mode="full"):
         T = lit(tuple(tgt), s)
         if k >= 0:
             parts.append(("%s + %d" % (DT, k), "eq", want))
-            parts.append(("(%s + %d) - %d == %s" % (DT, k, k, DT), "true", True))
         else:
             parts.append(("%s - %d" % (DT, -k), "eq", want))
-            parts.append(("(%s - %d) + %d == %s" % (DT, -k, -k, DT), "true", True))
         parts.append(("%s - %s" % (T, DT), "int", k))
         if mode != "light":
+            if k >= 0:
+                parts.append(("(%s + %d) - %d == %s" % (DT, k, k, DT), "true", True))
+            else:
+                parts.append(("(%s - %d) + %d == %s" % (DT, -k, -k, DT), "true", True))
             parts.append(("(%s + (%d)) - %s" % (DT, k, DT), "int", k))
             parts.append(("(%s + (%d)) - %s == %d" % (DT, k, DT, k), "true", True))
     out2, c2 = check_parts(it, parts)
@@ -320,27 +322,56 @@ def offsets_for(tab, rng, n, how_many, ends=True):
 BLANK = {"op": "", "ok": True, "y": 0, "m": 0, "d": 0, "s": 0, "k": 0, "a": 0, "r": 0, "us": 0, "b": False}
 
 
+def observe(it, e, src):
+    """Run src on the interpreter and store what it returned in the event e
+    (which already holds op and the inputs).  -> the raw outcome"""
+    o = interp(it, src)
+    op = e["op"]
+    ok = o[0] == "val"
+    v = o[1] if ok else None
+    if op == "new":
+        pass
+    elif op in ("add", "sub", "date_int", "date_dec", "roundtrip", "roundtrip_int"):
+        if ok and isinstance(v, tuple) and v[0] == "date":
+            e["y"], e["m"], e["d"], e["s"] = v[1:5]
+        else:
+            ok = False
+    elif op in ("int", "diff", "minus"):
+        if ok and type(v) is int and abs(v) < 2 ** 31:
+            e["r"] = v
+        else:
+            ok = False
+    elif op == "dec":
+        if ok and isinstance(v, tuple) and v[0] == "dec" and 0 <= v[1] < 2 ** 31:
+            x = Fraction(v[1])
+            r = x.numerator // x.denominator
+            secs = round((x - r) * 86400)
+            us = round(((x - r) * 86400 - secs) * 10 ** 6)
+            if secs == 86400:
+                r, secs = r + 1, 0
+            e["r"], e["s"], e["us"] = r, secs, us
+        else:
+            ok = False
+    elif op == "back":
+        if ok and isinstance(v, bool):
+            e["b"] = v
+        else:
+            ok = False
+    e["ok"] = ok
+    return o
+
+
 def record_traces(rng, ntraces, tab):
+    """-> (events, meta); meta[i] = [source text, note] of event i"""
     events, meta = [], []
 
-    def ev(src, **kw):
+    def ev(it, src, **kw):
         e = dict(BLANK)
         e.update(kw)
+        o = observe(it, e, src)
         events.append(e)
-        meta.append(src)
+        meta.append([src, "" if e["ok"] else "%r" % (o,)])
         return e
-
-    def put_date(e, o):
-        if o[0] == "val" and isinstance(o[1], tuple) and o[1][0] == "date":
-            e["y"], e["m"], e["d"], e["s"] = o[1][1:5]
-        else:
-            e["ok"] = False
-
-    def put_int(e, o):
-        if o[0] == "val" and type(o[1]) is int and abs(o[1]) < 2 ** 31:
-            e["r"] = o[1]
-        else:
-            e["ok"] = False
 
     for _ in range(ntraces):
         it = Interpreter(True, False)
@@ -356,11 +387,8 @@ def record_traces(rng, ntraces, tab):
         n = max(FIRST, min(LAST, n))
         s = rng.choice([0, 0, 43200, 86399, 1]) if rng.random() < 0.4 else rng.randrange(86400)
         y, m, d = tab.date(n)
-        src = "def cur = " + lit((y, m, d), s)
-        o = interp(it, src)
-        e = ev(src, op="new", y=y, m=m, d=d, s=s)
-        if o[0] != "val":
-            e["ok"] = False
+        e = ev(it, "def cur = " + lit((y, m, d), s), op="new", y=y, m=m, d=d, s=s)
+        if not e["ok"]:
             continue
         for _step in range(rng.randint(5, 12)):
             op = rng.choice(["add", "sub", "add", "sub", "int", "dec", "date_int", "date_dec",
@@ -385,74 +413,53 @@ def record_traces(rng, ntraces, tab):
                 if cn - k < FIRST:
                     k = rng.randint(0, cn - FIRST)
             if op == "add":
-                src = "cur = cur + %d" % k
-                o = interp(it, src)
-                put_date(ev(src, op=op, k=k), o)
+                e = ev(it, "cur = cur + %d" % k, op=op, k=k)
             elif op == "sub":
-                src = "cur = cur - %d" % k
-                o = interp(it, src)
-                put_date(ev(src, op=op, k=k), o)
+                e = ev(it, "cur = cur - %d" % k, op=op, k=k)
             elif op == "int":
-                src = "int(cur)"
-                o = interp(it, src)
-                put_int(ev(src, op=op), o)
+                e = ev(it, "int(cur)", op=op)
             elif op == "dec":
-                src = "decimal(cur)"
-                o = interp(it, src)
-                e = ev(src, op=op)
-                if o[0] == "val" and isinstance(o[1], tuple) and o[1][0] == "dec" and 0 <= o[1][1] < 2 ** 31:
-                    v = Fraction(o[1][1])
-                    r = v.numerator // v.denominator
-                    secs = round((v - r) * 86400)
-                    us = round(((v - r) * 86400 - secs) * 10 ** 6)
-                    if secs == 86400:
-                        r, secs = r + 1, 0
-                    e["r"], e["s"], e["us"] = r, secs, us
+                e = ev(it, "decimal(cur)", op=op)
+            elif op in ("date_int", "date_dec"):
+                k = rng.randint(FIRST, LAST) if rng.random() < 0.5 else \
+                    tab.num(rng.randint(1900, 9999), 1, 1) - rng.randint(0, 1)
+                k = max(FIRST, k)
+                if op == "date_int":
+                    e = ev(it, "cur = date(%d)" % k, op=op, k=k)
                 else:
-                    e["ok"] = False
-            elif op == "date_int":
-                k = rng.randint(FIRST, LAST) if rng.random() < 0.5 else tab.num(rng.randint(1900, 9999), 1, 1) - rng.randint(0, 1)
-                k = max(FIRST, k)
-                src = "cur = date(%d)" % k
-                o = interp(it, src)
-                put_date(ev(src, op=op, k=k), o)
-            elif op == "date_dec":
-                k = rng.randint(FIRST, LAST) if rng.random() < 0.5 else tab.num(rng.randint(1900, 9999), 1, 1) - rng.randint(0, 1)
-                k = max(FIRST, k)
-                a = rng.randrange(86400)
-                src = "cur = date(%s)" % repr(k + a / 86400)
-                o = interp(it, src)
-                put_date(ev(src, op=op, k=k, a=a), o)
+                    a = rng.randrange(86400)
+                    e = ev(it, "cur = date(%s)" % repr(k + a / 86400), op=op, k=k, a=a)
             elif op == "roundtrip":
-                src = "date(decimal(cur))"
-                o = interp(it, src)
-                put_date(ev(src, op=op), o)
+                e = ev(it, "date(decimal(cur))", op=op)
             elif op == "roundtrip_int":
-                src = "date(int(cur))"
-                o = interp(it, src)
-                put_date(ev(src, op=op), o)
+                e = ev(it, "date(int(cur))", op=op)
             elif op == "diff":
-                src = "(cur + %d) - cur" % k
-                o = interp(it, src)
-                put_int(ev(src, op=op, k=k), o)
+                e = ev(it, "(cur + %d) - cur" % k, op=op, k=k)
             elif op == "minus":
-                on = rng.randint(FIRST, LAST)
-                oy, om, od = tab.date(on)
-                src = "%s - cur" % lit((oy, om, od), cs)
-                o = interp(it, src)
-                put_int(ev(src, op=op, y=oy, m=om, d=od, s=cs), o)
+                oy, om, od = tab.date(rng.randint(FIRST, LAST))
+                e = ev(it, "%s - cur" % lit((oy, om, od), cs), op=op, y=oy, m=om, d=od, s=cs)
             else:  # back
-                src = "(cur + %d) - %d == cur" % (k, k)
-                o = interp(it, src)
-                e = ev(src, op=op, k=k)
-                if o[0] == "val" and isinstance(o[1], bool):
-                    e["b"] = o[1]
-                else:
-                    e["ok"] = False
-            if not events[-1]["ok"]:
-                meta[-1] = "%s -> %r" % (src, o)
+                e = ev(it, "(cur + %d) - %d == cur" % (k, k), op=op, k=k)
+            if not e["ok"]:
                 break                       # the model and `cur` may differ now: next trace
     return events, meta
+
+
+def rerecord(events, meta):
+    """Run the stored sources of one trace again on the code under test and
+    observe afresh (used by --replay)."""
+    it = Interpreter(True, False)
+    out_e, out_m = [], []
+    keep = {"new": ("y", "m", "d", "s"), "minus": ("y", "m", "d", "s"), "date_dec": ("k", "a")}
+    for e0, (src, _note) in zip(events, meta):
+        e = dict(BLANK)
+        e["op"] = e0["op"]
+        for f in keep.get(e0["op"], ("k",)):
+            e[f] = e0[f]
+        o = observe(it, e, src)
+        out_e.append(e)
+        out_m.append([src, "" if e["ok"] else "%r" % (o,)])
+    return out_e, out_m
 
 
 def validate_traces(run, events, meta):
@@ -478,8 +485,8 @@ def validate_traces(run, events, meta):
         j = k
         while events[j]["op"] != "new":
             j -= 1
-        run.violation("trace:%s ; %s -> %s" % (meta[j], meta[k], json.dumps(events[k], sort_keys=True)),
-                      "trace-rejected: recorded call rejected by Date_Trace at clause %s" % b["why"],
+        run.violation("trace:%s ; %s -> %s" % (meta[j][0], meta[k][0], json.dumps(events[k], sort_keys=True)),
+                      "trace-rejected: recorded call rejected by Date_Trace at clause %s %s" % (b["why"], meta[k][1]),
                       {"kind": "trace", "events": events[j:k + 1], "meta": meta[j:k + 1]})
     return len(events), len(res.records("BAD"))
 
@@ -568,10 +575,10 @@ def run(run):
         add_day(y, 3, 1, "direct", 0)
     nbound = len(seen) - nwalk
     # random days
-    nrand = 20000 if quick else 100000
+    nrand = 20000 if quick else 60000
     for _ in range(nrand):
         y, m, d = tab.date(rng.randint(FIRST, LAST))
-        add_day(y, m, d, "full", 1)
+        add_day(y, m, d, "full" if rng.random() < 0.25 else "light", 1)
     ndays = len(jobs)
     if not quick:
         # every day of every month: direct conversions (to_oa_date / to_date, with a random time)
@@ -644,4 +651,5 @@ def replay(run, case):
         for key, what, c in out:
             run.violation(key, what, c)
     elif kind == "trace":
-        validate_traces(run, case["events"], case["meta"])
+        events, meta = rerecord(case["events"], case["meta"])
+        validate_traces(run, events, meta)
